@@ -51,6 +51,14 @@ def run (max : Nat) : Bytes → Bool → List Bytes → List Out
       let r := procPart max acc sync c
       r.1 ++ run max r.2.1 r.2.2 cs
 
+/-- the same reader, with its outputs grouped by the chunk during whose processing they were
+    produced (`receive_message()` returns a message while it is working on the chunk - or on the
+    residual of the chunk - that carried the message's newline) -/
+def runChunks (max : Nat) : Bytes → Bool → List Bytes → List (Bytes × List Out)
+  | _, _, [] => []
+  | acc, sync, c :: cs =>
+      let r := procPart max acc sync c
+      (c, r.1) :: runChunks max r.2.1 r.2.2 cs
 
 inductive Tok where
   | byte (b : UInt8)   -- includes newline
